@@ -607,6 +607,19 @@ where
         Ok(())
     }
 
+    /// A worker that is flagged draining (pool shrink) and has nothing left to do is stopped
+    /// and dropped from the pool. Returns [true] if the worker was retired.
+    fn retire_idle_draining_worker(&mut self, wid: WorkerId) -> bool {
+        if !matches!(self.pool.get(&wid), Some(w) if w.is_draining && !w.is_working()) {
+            return false;
+        }
+        if let Some(w) = self.pool.remove(&wid) {
+            self.worker_by_actor.remove(&w.actor.get_id());
+            w.actor.stop(None);
+        }
+        true
+    }
+
     fn worker_pong(&mut self, wid: usize, time: Duration) {
         let discard_limit = self
             .discard_settings
@@ -1047,6 +1060,9 @@ where
                 if let Some((wid, replacement_id)) = replacement {
                     state.worker_by_actor.remove(&who.get_id());
                     state.worker_by_actor.insert(replacement_id, wid);
+                    if state.retire_idle_draining_worker(wid) {
+                        return Ok(());
+                    }
                     state.try_route_next_active_job(Some(wid))?;
                     if matches!(state.pool.get(&wid), Some(w) if w.is_available()) {
                         state.router.on_worker_availability_change(wid, true);
@@ -1084,6 +1100,9 @@ where
                 if let Some((wid, replacement_id)) = replacement {
                     state.worker_by_actor.remove(&who.get_id());
                     state.worker_by_actor.insert(replacement_id, wid);
+                    if state.retire_idle_draining_worker(wid) {
+                        return Ok(());
+                    }
                     state.try_route_next_active_job(Some(wid))?;
                     if matches!(state.pool.get(&wid), Some(w) if w.is_available()) {
                         state.router.on_worker_availability_change(wid, true);
